@@ -142,7 +142,7 @@ def h_family(env, fam=0, n=5, sym=(0,), min_zero=True):
             env.check(tag + "_distance_recorded", env.and_(env.eq(a["geom4"] * a["geom4"], dd), env.ge(a["geom4"], 0.0)))
 
 
-def _check_partition(env, df, ent, ext, dmax, dmin, n, d1):
+def _check_partition(env, df, ent, ext, dmax, dmin, n, d1=None, dsq=None):
     ids = sorted(float(v) for v in df["subtomo_id"])
     env.check("every_particle_exactly_once", env.true() if ids == [float(i + 1) for i in range(n)] else _false(env))
     rows = [row(df, j) for j in range(df.shape[0])]
@@ -155,11 +155,13 @@ def _check_partition(env, df, ent, ext, dmax, dmin, n, d1):
         mem = sorted(mem, key=lambda m: float(m["geom2"]))
         for a, b in zip(mem[:-1], mem[1:]):
             ia, ib = int(float(a["subtomo_id"])) - 1, int(float(b["subtomo_id"])) - 1
-            dd = d1(ia, ib) * d1(ia, ib)
+            dd = dsq(ia, ib) if dsq is not None else d1(ia, ib) * d1(ia, ib)
             tag = "link_%d_to_%d" % (ia + 1, ib + 1)
             env.check(tag + "_within_max", env.le(dd, dmax * dmax))
             env.check(tag + "_beyond_min", env.gt(dd, dmin * dmin))
             env.check(tag + "_distance_recorded", env.and_(env.eq(a["geom4"] * a["geom4"], dd), env.ge(a["geom4"], 0.0)))
+        # a chain's LAST member carries no link distance of its own only if it never had a successor; what the property
+        # fixes is the recorded value of every link (above)
     env.note("chains", sorted((k, [int(float(m["subtomo_id"])) for m in sorted(v, key=lambda m: float(m["geom2"]))]) for k, v in chains.items()))
 
 
@@ -207,11 +209,55 @@ def h_scenario(env, kind="head_cut_then_append", order=(0, 1, 2, 3)):
     _check_partition(env, out.df, ent, ext, dmax, 0.0, n, d1)
 
 
+
+def h_scenario3d(env, kind="tail_cut"):
+    """Six-particle skeletons in 3-D (the sites that interact sit on different axes around a common exit/entry site, which a
+    line cannot host) for the branches of add_chain_suffix / add_chain_prefix that are reachable only after an earlier head
+    cut: cutting a TAIL off (a later chain starts closer to a chain end than the chain appended there before), and the
+    connection from BOTH sides with a head cut.  The gaps and the distance limit are solver reals constrained only in
+    their order; far coordinates are concrete."""
+    rb = env.module("ribana")
+    cm = env.module("cryomotl")
+    dmax = env.real("dmax", 1, 8)
+    g = [env.real("g%d" % i, 0.1, 8) for i in range(5)]
+    if kind == "tail_cut":
+        gb, gc, gr, gx = g[0], g[1], g[2], g[3]
+        env.assume(env.and_(env.lt(gc, gb), env.lt(gb, gx), env.lt(gx, gr), env.le(gr, dmax)))
+        E = (-3.0, 0.0, 0.0)                                                 # exit site of b1
+        P = [((-30.0, 0.0, 0.0), E),                                          # b1
+             ((E[0] + gb, 0.0, 0.0), (40.0, 0.0, 0.0)),                       # b2: entry gb beyond b1's exit
+             ((0.0, 40.0, 0.0), (E[0] + gb, gc, 0.0)),                        # c1: ends gc (< gb) from b2's entry -> head b1 cut off
+             ((E[0], -gr, 0.0), (-3.0, -30.0, 0.0)),                          # r : entry gr from b1's exit -> appended after b1
+             ((-3.0, -33.0, 0.0), (-3.0, -60.0, 0.0)),                        # r2: follows r (link 3)
+             ((E[0], 0.0, gx), (0.0, 0.0, 80.0))]                             # x1: entry gx (< gr) from b1's exit -> tail (r, r2) cut
+        env.assume(env.ge(dmax, 3.5))
+    else:
+        g1, g2, g3, g4, g5 = g
+        env.assume(env.and_(env.lt(g3, g1), env.lt(g1, g4), env.le(g4, dmax), env.lt(g5, g2), env.le(g2, dmax)))
+        E1 = (-4.0, 0.0, 0.0)
+        X2 = (20.0, 0.0, 0.0)
+        P = [((-20.0, 0.0, 0.0), E1),                                         # b1
+             ((E1[0] + g1, 0.0, 0.0), X2),                                    # b2
+             ((X2[0] + g2, 0.0, 0.0), (40.0, 0.0, 0.0)),                      # b3
+             ((0.0, 30.0, 0.0), (E1[0] + g1, g3, 0.0)),                       # c1: cuts b1 off
+             ((E1[0], -g4, 0.0), (X2[0] + g2, g5, 0.0)),                      # d1: after b1 and before b3 (both sides), cutting (c1, b2) off
+             ((0.0, 0.0, 50.0), (0.0, 0.0, 60.0))]                            # h : isolated, opens the next chain
+    n = len(P)
+    ent = [{"tomo_id": 1.0, "subtomo_id": float(i + 1), "x": P[i][0][0], "y": P[i][0][1], "z": P[i][0][2]} for i in range(n)]
+    ext = [{"tomo_id": 1.0, "subtomo_id": float(i + 1), "x": P[i][1][0], "y": P[i][1][1], "z": P[i][1][2]} for i in range(n)]
+
+    def dsq(a, b):
+        return sum((ext[a][c] - ent[b][c]) * (ext[a][c] - ent[b][c]) for c in "xyz")
+    out = rb.trace_chains(mk_motl(env, cm, ent), mk_motl(env, cm, ext), dmax, 0.0)
+    _check_partition(env, out.df, ent, ext, dmax, 0.0, n, dsq=dsq)
+
+
 def jobs(tier, seed):
     j = [("h_trace", {"n": 2, "min_zero": True}), ("h_trace", {"n": 2, "min_zero": False, "second_tomo": False}), ("h_trace", {"n": 3, "min_zero": True, "second_tomo": False})]
     nf = 6 if tier == "quick" else 60
     fams = [("h_family", {"fam": seed * 1000 + f, "n": 5 if f % 2 == 0 else 4, "sym": [f % 4], "min_zero": f % 3 != 0}) for f in range(nf)]
-    scen = [("h_scenario", {"kind": "head_cut_then_append"}), ("h_scenario", {"kind": "prefix_kept"}), ("h_scenario", {"kind": "both_sides"})]
+    scen = [("h_scenario", {"kind": "head_cut_then_append"}), ("h_scenario", {"kind": "prefix_kept"}), ("h_scenario", {"kind": "both_sides"}),
+            ("h_scenario3d", {"kind": "tail_cut"}), ("h_scenario3d", {"kind": "both_sides_head_cut"})]
     if tier == "thorough":
         scen += [("h_scenario", {"kind": k, "order": list(o)}) for k in ("head_cut_then_append", "prefix_kept", "both_sides") for o in itertools.permutations(range(4)) if list(o) != [0, 1, 2, 3] and (k != "both_sides" or o[0] < o[1])]
     j = j[:2] + scen + fams + j[2:]
